@@ -349,3 +349,118 @@ impl Drop for LateAcceptor {
         }
     }
 }
+
+// ---------------------------------------------------------------------------------------------
+// scripted plain TCP server for the timeout property (C13)
+
+#[derive(Debug, Clone)]
+pub enum Step {
+    /// read the request head (up to the blank line)
+    ReadRequest,
+    Send(Vec<u8>),
+    SleepMs(u64),
+    /// send the bytes one at a time, one every `every_ms`
+    Drip { bytes: Vec<u8>, every_ms: u64 },
+    /// keep the connection open and silent until the case ends
+    Stall,
+    Close,
+}
+
+pub struct ScriptServer {
+    pub addr: SocketAddr,
+    pub accepted: Arc<AtomicUsize>,
+    stop: Arc<AtomicBool>,
+    handle: Option<JoinHandle<()>>,
+}
+
+/// One script per accepted connection, in order; connections beyond the scripts are closed at once.
+pub fn script_server(scripts: Vec<Vec<Step>>) -> std::io::Result<ScriptServer> {
+    let l = TcpListener::bind("127.0.0.1:0")?;
+    let addr = l.local_addr()?;
+    l.set_nonblocking(true)?;
+    let stop = Arc::new(AtomicBool::new(false));
+    let accepted = Arc::new(AtomicUsize::new(0));
+    let (s2, a2) = (stop.clone(), accepted.clone());
+    let handle = std::thread::spawn(move || {
+        let mut workers = vec![];
+        let mut scripts = scripts.into_iter();
+        while !s2.load(Ordering::Relaxed) {
+            match l.accept() {
+                Ok((mut sock, _)) => {
+                    a2.fetch_add(1, Ordering::Relaxed);
+                    let Some(script) = scripts.next() else { continue };
+                    let stop = s2.clone();
+                    workers.push(std::thread::spawn(move || {
+                        let _ = sock.set_nonblocking(false);
+                        let _ = sock.set_read_timeout(Some(Duration::from_millis(2000)));
+                        let _ = sock.set_nodelay(true);
+                        let nap = |ms: u64, stop: &AtomicBool| {
+                            let t0 = std::time::Instant::now();
+                            while t0.elapsed() < Duration::from_millis(ms) && !stop.load(Ordering::Relaxed) {
+                                std::thread::sleep(Duration::from_millis(2.min(ms.max(1))));
+                            }
+                        };
+                        for step in script {
+                            if stop.load(Ordering::Relaxed) {
+                                break;
+                            }
+                            match step {
+                                Step::ReadRequest => {
+                                    let _ = read_head(&mut sock);
+                                }
+                                Step::Send(b) => {
+                                    if sock.write_all(&b).is_err() {
+                                        break;
+                                    }
+                                }
+                                Step::SleepMs(ms) => nap(ms, &stop),
+                                Step::Drip { bytes, every_ms } => {
+                                    for b in bytes {
+                                        if stop.load(Ordering::Relaxed) || sock.write_all(&[b]).is_err() {
+                                            break;
+                                        }
+                                        nap(every_ms, &stop);
+                                    }
+                                }
+                                Step::Stall => {
+                                    while !stop.load(Ordering::Relaxed) {
+                                        std::thread::sleep(Duration::from_millis(3));
+                                    }
+                                }
+                                Step::Close => break,
+                            }
+                        }
+                        let _ = sock.shutdown(std::net::Shutdown::Both);
+                    }));
+                }
+                Err(_) => std::thread::sleep(Duration::from_millis(1)),
+            }
+        }
+        for w in workers {
+            let _ = w.join();
+        }
+    });
+    Ok(ScriptServer { addr, accepted, stop, handle: Some(handle) })
+}
+
+impl ScriptServer {
+    /// Stop all connection scripts and join every thread of this server.
+    pub fn finish(&mut self) {
+        self.stop.store(true, Ordering::Relaxed);
+        if let Some(h) = self.handle.take() {
+            let _ = h.join();
+        }
+    }
+}
+
+impl Drop for ScriptServer {
+    fn drop(&mut self) {
+        self.finish();
+    }
+}
+
+/// Number of tasks (threads) and open descriptors of this process.
+pub fn proc_counts() -> (usize, usize) {
+    let n = |p: &str| std::fs::read_dir(p).map(|d| d.count()).unwrap_or(0);
+    (n("/proc/self/task"), n("/proc/self/fd"))
+}
